@@ -1,5 +1,5 @@
-    /// C09 (BOUNDED: addresses of at most 4 bytes): `member_key(addr)` is the cw-storage-plus 2.0 raw key of MEMBERS[addr]:
-    /// 2-byte big-endian length of the namespace, the namespace "members", then the address bytes
+    /// C09 (BOUNDED: addresses of at most 4 bytes): `member_key(addr)` has the raw-key layout of cw-storage-plus 2.0 for
+    /// MEMBERS[addr]: 2-byte big-endian length of the namespace, the namespace "members", then the address bytes
     #[kani::proof]
     #[kani::unwind(9)]
     fn member_key_layout() {
